@@ -147,7 +147,8 @@ def M_cow_as_ref(it, ctx, args, st):
 
 
 def M_str_split_char(it, ctx, args, st):
-    """str::split(char): the harness only passes values that do not contain the separator (single-segment parameters)"""
+    """str::split(char): path parameter inputs are constrained not to contain '/' (transport contract, stated on the inputs); when
+    that is provable the split is the single segment, otherwise it is executed for real"""
     s = sval(st, args[0])
     ch = concrete(args[1])
     if ch != ord('/'):
@@ -157,7 +158,10 @@ def M_str_split_char(it, ctx, args, st):
     if ch == ord('/') and encoded_input(st, s) is not None:
         yield st, It('list', (args[0],))
         return
-    st.pc.append(z3.And(*[z3.Or(z3.UGE(bv(i), s.len), b != ch) for i, b in enumerate(s.bytes)]))
+    if it.feasible(st, z3.Or(*[z3.And(z3.ULT(bv(i), s.len), b == ch) for i, b in enumerate(s.bytes)])):
+        # the value may contain the separator: no assumption, the split is executed for real
+        yield from models_std.M_str_split_char_real(it, ctx, args, st)
+        return
     yield st, It('list', (args[0],))
 
 
